@@ -303,17 +303,21 @@ func Delay[T any](duration time.Duration) func(Observable[T]) Observable[T] {
 			queue := []lo.Tuple2[context.Context, Notification[T]]{}
 
 			consume := func() {
+				// muNext is taken first and muQueue is never held while waiting for it: the
+				// teardown takes muQueue and may run inside the notification sent below.
+				muNext.Lock()
 				muQueue.Lock()
 
 				if len(queue) == 0 {
 					muQueue.Unlock()
+					muNext.Unlock()
+
 					return
 				}
 
 				first := queue[0]
 				queue = queue[1:]
 
-				muNext.Lock()
 				muQueue.Unlock()
 
 				_ = processNotificationWithObserverAndContext(
